@@ -1,6 +1,6 @@
 /- line-protocol handlers for the Group model (C11):
    (group lu <table> (L by*))               -> ok (T <listby> <unlist of it> <table>)
-   (group gu <table> (L by*))               -> ok (T <groupby> <ungroup of it> <table>)
+   (group gu <table> (L by*) <sp> [grp])    -> ok (T <groupby> <ungroup of it> <table>)   grp: the `grp =` name (default 'grp')
    (group pv <table> (L x*) y z <agg>)      -> ok (T <pivot> <unpivot of it> <table>)      agg: none|len|first|last
    (group unlist <vtable>) / (group ungroup <vtable>) / (group unpivot <vtable> (L x*) y z)  -> ok <vtable>
    column names are `S:<hex>` atoms; a step that raises gives `err Kind` for the whole line. -/
@@ -56,14 +56,18 @@ def handle1 (op : String) (args : List Sexp) : Option String := do
         let l ← t.listby by_ emptyList
         let u ← l.unlist
         pure (.tuple [vtableVal l, vtableVal u, t.toVal])))
-  | "gu", t :: by_ :: _ =>
+  | "gu", t :: by_ :: rest =>
       let t ← Table.ofVal (← Val.ofSexp t)
       let by_ ← strsOf by_
       if ¬ by_.Nodup then Option.none else
-      match t.groupby by_ "grp" with
+      -- optional 5th argument: the `grp =` keyword of groupby and ungroup
+      let grp ← match rest with
+        | [_, g] => strOf g
+        | _ => some "grp"
+      match t.groupby by_ grp with
       | .error e => pure (reply (.error e))
       | .ok g =>
-        let u ← g.ungroup "grp"
+        let u ← g.ungroup grp
         pure (reply (do let u ← u; pure (.tuple [vtableVal g, vtableVal u, t.toVal])))
   | "pv", [t, x, y, z, agg] =>
       let t ← Table.ofVal (← Val.ofSexp t)
